@@ -197,7 +197,11 @@ fn insert_query(req: &mut WireRequest, fold: bool, in_body: bool, pair: &str, fi
 fn apply_dup(dc: &DupCase, req: &mut WireRequest, signed: bool) {
     use DupKind::*;
     let p = &dc.plan;
-    let decoy_ts = render(p.instant.add_nanos(dc.decoy_delta_s as i128 * 1_000_000_000), p.style);
+    let mut decoy_ts = render(p.instant.add_nanos(dc.decoy_delta_s as i128 * 1_000_000_000), p.style);
+    if dc.decoy_delta_s.unsigned_abs() % 5 == 2 {
+        // a date that is no ISO 8601 timestamp at all: if the rule selects it, the request has no usable date
+        decoy_ts = ["Sun, 30 Aug 2015 12:36:00 GMT", "20150830", "20150830T123600", "1440938160", "", "2015-08-30 12:36:00Z"][(dc.decoy_delta_s.unsigned_abs() / 5 % 6) as usize].to_string();
+    }
     let enc = |s: &str| crate::model::canon::pct_encode(s.as_bytes());
     let decoy_cred = format!("AKIADECOY0000000/{}/{}/{}/aws4_request", p.instant.date8(), p.cfg.region, p.cfg.service);
     match dc.kind {
@@ -245,7 +249,9 @@ fn apply_dup(dc: &DupCase, req: &mut WireRequest, signed: bool) {
                             _ => format!("p{}=v, ", i),
                         });
                     }
-                    *v = B::from(if dc.decoy_first { format!("{} {}, {}{}", alg, extra, fill, rest) } else { format!("{} {}, {}{}", alg, rest, fill, extra) });
+                    // the comma before the second occurrence may be followed by tabs as well as spaces (RFC 9110 OWS)
+                    let sep = [", ", ",\t", ", \t", " ,\t "][(dc.decoy_delta_s.unsigned_abs() % 4) as usize];
+                    *v = B::from(if dc.decoy_first { format!("{} {}{}{}{}", alg, extra, sep, fill, rest) } else { format!("{} {}{}{}{}", alg, rest, sep, fill, extra) });
                 }
             }
         }
